@@ -252,3 +252,91 @@ ME = "sktime/forecasting/model_evaluation/_functions.py"
 contract(f"{ME}::_check_strategy", "C20,C07", cases=["refit", "update", "other", "None"],
          inputs=lambda B, case: {"strategy": {"refit": "refit", "update": "update", "other": "refitt", "None": None}[case]},
          raises=[("ValueError", lambda A: A.strategy not in ("refit", "update"))], returns=lambda A: None)
+
+
+# ----------------------------------------------------------------------------- ill-formed composites
+from pyvc.values import SObj as _SObj, SList as _SList    # noqa: E402
+FMETA = "sktime/forecasting/base/_meta.py"
+FPIPE = "sktime/forecasting/compose/_pipeline.py"
+
+_COMPOSITE_CASES = {
+    # case -> (builder of the `forecasters` value from two abstract forecasters a, b and a non-forecaster x, expected exception or None)
+    "valid-2": (lambda a, b, x: _SList([_SList(["f0", a], "tuple"), _SList(["f1", b], "tuple")], "list"), None),
+    "valid-1": (lambda a, b, x: _SList([_SList(["f0", a], "tuple")], "list"), None),
+    "valid-with-dropped": (lambda a, b, x: _SList([_SList(["f0", a], "tuple"), _SList(["f1", "drop"], "tuple")], "list"), None),
+    "none": (lambda a, b, x: None, "ValueError"),
+    "empty": (lambda a, b, x: _SList([], "list"), "ValueError"),
+    "tuple-not-list": (lambda a, b, x: _SList([_SList(["f0", a], "tuple")], "tuple"), "ValueError"),
+    "duplicate-names": (lambda a, b, x: _SList([_SList(["f0", a], "tuple"), _SList(["f0", b], "tuple")], "list"), "ValueError"),
+    "name-is-a-constructor-argument": (lambda a, b, x: _SList([_SList(["forecasters", a], "tuple"), _SList(["f1", b], "tuple")], "list"), "ValueError"),
+    "name-with-double-underscore": (lambda a, b, x: _SList([_SList(["f__0", a], "tuple"), _SList(["f1", b], "tuple")], "list"), "ValueError"),
+    "all-dropped": (lambda a, b, x: _SList([_SList(["f0", "drop"], "tuple"), _SList(["f1", None], "tuple")], "list"), "ValueError"),
+    "member-is-not-a-forecaster": (lambda a, b, x: _SList([_SList(["f0", a], "tuple"), _SList(["f1", x], "tuple")], "list"), "ValueError"),
+}
+
+
+def _comp_inputs(B, case):
+    from contracts.C10_update import abstract_forecaster
+    I = B.I
+    ok, cls = I.mod_global(I.src.module("sktime.forecasting.compose._ensemble"), "EnsembleForecaster")
+    a, b = abstract_forecaster(B, "member a"), abstract_forecaster(B, "member b")
+    a.closed_isa = b.closed_isa = True
+    x = B.abstract("not a forecaster", isa=("BaseEstimator",))
+    x.closed_isa = True
+    kls = B.opaque("class of the non-forecaster")
+    kls.attrs = {"__name__": "SomethingElse"}
+    x.attrs["__class__"] = kls
+    val = _COMPOSITE_CASES[case][0](a, b, x)
+    obj = I.instantiate(cls, [val], {})
+    obj.ghost_case = case
+    return {"self": obj}
+
+
+def _comp_post(A, r):
+    f = A.self.attrs["forecasters"]
+    names, members = r.items if isinstance(r, _SList) and len(r.items) == 2 else (None, None)
+    if names is None:
+        return False
+    want_names = [t.items[0] for t in f.items]
+    want_members = [t.items[1] for t in f.items]
+    return list(names.items) == want_names and all(m is w for m, w in zip(members.items, want_members)) and len(members.items) == len(want_members)
+
+
+contract(f"{FMETA}::_HeterogenousEnsembleForecaster._check_forecasters", "C20,C09", cases=list(_COMPOSITE_CASES), inputs=_comp_inputs,
+         raises=[("ValueError", lambda A: _COMPOSITE_CASES[A.self.ghost_case][1] == "ValueError")],
+         ensures=[("returns-names-and-members-in-the-given-order", _comp_post)], frame=lambda A: [A.self],
+         notes=["ill-formed composites by enumerated class (None, empty, not a list, duplicate / reserved / dunder names, all dropped, a "
+                "member that is not a forecaster); members abstract"])
+
+
+_STEP_CASES = {
+    "valid": (lambda t, f, x: _SList([_SList(["t", t], "tuple"), _SList(["f", f], "tuple")], "list"), None),
+    "valid-no-transformer": (lambda t, f, x: _SList([_SList(["f", f], "tuple")], "list"), None),
+    "duplicate-names": (lambda t, f, x: _SList([_SList(["s", t], "tuple"), _SList(["s", f], "tuple")], "list"), "ValueError"),
+    "name-is-a-constructor-argument": (lambda t, f, x: _SList([_SList(["steps", t], "tuple"), _SList(["f", f], "tuple")], "list"), "ValueError"),
+    "intermediate-step-is-not-a-series-transformer": (lambda t, f, x: _SList([_SList(["t", x], "tuple"), _SList(["f", f], "tuple")], "list"), "TypeError"),
+    "last-step-is-not-a-forecaster": (lambda t, f, x: _SList([_SList(["t", t], "tuple"), _SList(["f", x], "tuple")], "list"), "TypeError"),
+    "forecaster-in-the-middle": (lambda t, f, x: _SList([_SList(["g", f], "tuple"), _SList(["f", f], "tuple")], "list"), "TypeError"),
+}
+
+
+def _steps_inputs(B, case):
+    from contracts.C10_update import abstract_forecaster
+    I = B.I
+    ok, cls = I.mod_global(I.src.module("sktime.forecasting.compose._pipeline"), "TransformedTargetForecaster")
+    t = B.abstract("series transformer", isa=("_SeriesToSeriesTransformer", "BaseTransformer", "BaseEstimator"))
+    f = abstract_forecaster(B, "final forecaster")
+    x = B.abstract("something else", isa=("BaseEstimator",))
+    t.closed_isa = f.closed_isa = x.closed_isa = True
+    obj = I.instantiate(cls, [_STEP_CASES[case][0](t, f, x)], {})
+    obj.ghost_case = case
+    return {"self": obj}
+
+
+contract(f"{FPIPE}::TransformedTargetForecaster._check_steps", "C20,C09", cases=list(_STEP_CASES), inputs=_steps_inputs,
+         raises=[("ValueError", lambda A: _STEP_CASES[A.self.ghost_case][1] == "ValueError"),
+                 ("TypeError", lambda A: _STEP_CASES[A.self.ghost_case][1] == "TypeError")],
+         ensures=[("returns-a-copy-of-the-steps-in-order",
+                   lambda A, r: isinstance(r, _SList) and r is not A.self.attrs["steps"] and
+                   all(a is b for a, b in zip(r.items, A.self.attrs["steps"].items)) and len(r.items) == len(A.self.attrs["steps"].items))],
+         frame=lambda A: [A.self])
